@@ -14,7 +14,7 @@ Import ListNotations.
 (** * Stray closing tokens *)
 Inductive stray :=
 | SBrace                       (* } *)
-| SMClose (k : mathkind)       (* \) or \]   (k <> MDollar) *)
+| SMClose (k : mathkind)       (* \) or \]   (k <> MDollar, k <> MDollars) *)
 | SEnd (x : str).              (* \end{x} *)
 
 Definition stray_text (c : stray) : str :=
@@ -27,8 +27,15 @@ Definition stray_arg (c : stray) : str :=
     closing math-mode delimiter, 3 = unexpected [\end] *)
 Definition stray_what (c : stray) : nat :=
   match c with SBrace => 2 | SMClose _ => 4 | SEnd _ => 3 end.
+(** [$] and [$$] are not stray CLOSING tokens: wherever they are not the
+    expected closing delimiter (outside math mode, in a formula of another
+    kind, [$$] in a [$ $] formula being read as [$]) they OPEN a formula *)
 Definition stray_wf (c : stray) : Prop :=
-  match c with SBrace => True | SMClose k => k <> MDollar | SEnd x => envname_ok x = true end.
+  match c with
+  | SBrace => True
+  | SMClose k => k <> MDollar /\ k <> MDollars
+  | SEnd x => envname_ok x = true
+  end.
 (** the token is not what the collector with options [o] is waiting for *)
 Definition stray_ok (o : genopts) (c : stray) : Prop :=
   match c with
@@ -54,7 +61,7 @@ Lemma stray_inertf c : inertf (hd_error (stray_text c)).
 Proof.
   destruct c as [|k|x]; cbn [stray_text].
   - exact inertf_125.
-  - destruct k; [exact inertf_36 | exact inertf_92 | exact inertf_92].
+  - destruct k; [exact inertf_36 | exact inertf_92 | exact inertf_92 | exact inertf_36].
   - exact inertf_92.
 Qed.
 
@@ -71,10 +78,11 @@ Section Stray.
     destruct c as [|k|x]; cbn [stray_text stray_tk stray_arg stray_wf] in *.
     - cbn [app] in SK. rewrite (impl_peek_dispatch ps s pos fws 125%N g W SK space_125).
       rewrite (dispatch_close cx ps V). cbn [length]. f_equal. f_equal. lia.
-    - assert (SK' : exists r0, m_close k ++ g = 92%N :: r0) by (destruct k; [congruence| |]; eexists; reflexivity).
+    - destruct WF as [WF WF2].
+      assert (SK' : exists r0, m_close k ++ g = 92%N :: r0) by (destruct k; [congruence| | |congruence]; eexists; reflexivity).
       destruct SK' as [r0 SK']. rewrite SK' in SK.
       rewrite (impl_peek_dispatch ps s pos fws 92%N r0 W SK space_92). rewrite <- SK'.
-      rewrite (dispatch_close_delim cx ps V s _ fws k g WF). destruct k; [congruence|reflexivity|reflexivity].
+      rewrite (dispatch_close_delim cx ps V s _ fws k g WF WF2). destruct k; [congruence|reflexivity|reflexivity|congruence].
     - pose proof (skipn_shift _ _ _ _ SK) as SK1.
       assert (SK' : env_text false x ++ g = 92%N :: (env_kw false ++ 123%N :: x ++ [125%N]) ++ g) by reflexivity.
       rewrite SK' in SK.
@@ -87,7 +95,7 @@ Section Stray.
     intros G WF. destruct c as [|k|x]; cbn [stray_tk stray_arg stray_what stray_wf] in *.
     - left. auto.
     - right. right. split; [destruct k; reflexivity|]. split; [|reflexivity].
-      rewrite (good_by_open_has ps _ G). destruct k; [congruence|reflexivity|reflexivity].
+      rewrite (good_by_open_has ps _ G). destruct WF as [WF WF2]. destruct k; [congruence|reflexivity|reflexivity|congruence].
     - right. left. auto.
   Qed.
 
@@ -148,7 +156,7 @@ Definition closes_hole (path : list lframe) (c : stray) : bool :=
   match last path (LMath [] [] MDollar), path, c with
   | _, [], _ => false
   | (LGrp _ _ | LMac _ _ _ _ _), _, SBrace => true
-  | LMath _ _ k, _, SMClose k' => match k, k' with MDollar, MDollar | MParen, MParen | MBracket, MBracket => true | _, _ => false end
+  | LMath _ _ k, _, SMClose k' => match k, k' with MDollar, MDollar | MParen, MParen | MBracket, MBracket | MDollars, MDollars => true | _, _ => false end
   | _, _, _ => false
   end.
 
